@@ -248,8 +248,9 @@ for op, lst in CRASH:
            tier='quick' if (op, o) in CRASH_QUICK else 'thorough', kind='config-bounded',
            bound=f'1 tree, all states under wf_lower, order {o}, huge frame {h}; crash after ANY number K of the call\'s atomic writes (K symbolic); universally quantified witness frame outside the block',
            assumes=['atomic::Atom::try_update sequential contract (l1a_atom_*)', 'persistence order = program order of atomic writes (no cache-line model)'], timeout=1500, cover=False)
-ob('llfree::l2_new_establishes_invariant', ['C05', 'C06', 'C04', 'C09'], ['llfree::LLFree::new', 'trees::Trees::new', 'local::Locals::new'], kind='config-bounded',
-   bound='every frame count with two trees (last one partial or whole), FreeAll / AllocAll / Recover, any lower free counts; volatile buffers zeroed',
+for _n in ('l2_new_establishes_invariant', 'l2_new_establishes_invariant_partial'):
+  ob('llfree::' + _n, ['C05', 'C06', 'C04', 'C09'], ['llfree::LLFree::new', 'trees::Trees::new', 'local::Locals::new'], kind='config-bounded',
+   bound='two trees (whole / partial last tree: frames = 2*TREE_FRAMES / TREE_FRAMES+5), FreeAll / AllocAll / Recover, any lower free counts; volatile buffers zeroed',
    assumes=['lower::Lower::new by contract (c06_*, c05_recover_*)', 'lower::Lower::stats_at/stats by contract (c04_lower_*)'], cover=False)
 # C10 / C11 completeness, monolithic over the configuration
 ob('llfree::c10_drained_targeted_2c', ['C10'], ['llfree::LLFree::get', 'llfree::LLFree::get_at', 'llfree::LLFree::steal_global'],
